@@ -12,41 +12,64 @@ Proof.
            end; try discriminate; congruence.
 Qed.
 
-(** Integer arithmetic raises only ZeroDivisionError; an undefined name NameError. *)
-Lemma py_eval_exc : forall e c, py_eval e = RExc c -> c = EZeroDivision \/ c = ENameError.
+(** Integer arithmetic raises only ZeroDivisionError; an undefined name NameError; anything else
+    comes from an oracle leaf. *)
+Lemma py_eval_exc : forall e c, py_eval e = RExc c ->
+  c = EZeroDivision \/ c = ENameError \/ In c (oracle_excs e).
 Proof.
-  induction e as [z| | |a IH|a IH|a IH|op a IHa b IHb]; intros c H; cbn in H.
+  induction e as [r|z| | |a IH|a IH|a IH|op a IHa b IHb]; intros c H; cbn in H.
+  - subst r. right; right; cbn; left; reflexivity.
   - discriminate.
   - discriminate.
-  - right; congruence.
-  - destruct (py_eval a) eqn:Ea; try discriminate. apply IH; exact H.
-  - apply IH; exact H.
-  - destruct (py_eval a) eqn:Ea; try discriminate. apply IH; exact H.
-  - destruct (py_eval a) as [x|ca|] eqn:Ea.
+  - right; left; congruence.
+  - destruct (py_eval a) eqn:Ea; try discriminate. cbn. apply IH; exact H.
+  - cbn. apply IH; exact H.
+  - destruct (py_eval a) eqn:Ea; try discriminate. cbn. apply IH; exact H.
+  - cbn. destruct (py_eval a) as [x|ca|] eqn:Ea.
     + destruct (py_eval b) as [y|cb|] eqn:Eb.
       * left. eapply int_binop_exc; exact H.
-      * apply IHb; exact H.
+      * destruct (IHb _ H) as [E | [E | E]]; [left; exact E | right; left; exact E | right; right; apply in_or_app; right; exact E].
       * discriminate.
-    + apply IHa; exact H.
+    + destruct (IHa _ H) as [E | [E | E]]; [left; exact E | right; left; exact E | right; right; apply in_or_app; left; exact E].
     + discriminate.
 Qed.
 
-(** With the chain as it is now, an integer expression is a value or "not an integer". *)
+(** Every subclass of Exception raised by [eval] is turned into NotAnIntegerException. *)
+Lemma chain_catches_every_exception : forall c, subclass c EException = true ->
+  exists e', handle (chain_python_evaluate true) (Exc c PNone) = Raise e' /\ e_cls e' = ENotAnInteger.
+Proof.
+  intros c H. destruct c; try (vm_compute in H; discriminate); eexists; split; vm_compute; reflexivity.
+Qed.
+
+(** With the chain as it is now, an integer expression whose oracle leaves raise only subclasses
+    of Exception is a value or "not an integer". *)
 Lemma integer_never_escapes : forall e,
+  (forall c, In c (oracle_excs e) -> subclass c EException = true) ->
   (exists z, python_evaluate true e = CValue z) \/ python_evaluate true e = CNotInt.
 Proof.
-  intros e. unfold python_evaluate. destruct (py_eval e) as [z|c|] eqn:E.
+  intros e Ho. unfold python_evaluate. destruct (py_eval e) as [z|c|] eqn:E.
   - left; exists z; reflexivity.
-  - right. destruct (py_eval_exc _ _ E) as [-> | ->]; vm_compute; reflexivity.
+  - right.
+    assert (Hc : subclass c EException = true).
+    { destruct (py_eval_exc _ _ E) as [-> | [-> | Hin]]; [reflexivity | reflexivity | apply Ho; exact Hin]. }
+    destruct (chain_catches_every_exception c Hc) as [e' [H1 H2]]. rewrite H1, H2. reflexivity.
   - right. vm_compute. reflexivity.
 Qed.
 
 Lemma integer_validation_never_internal : forall e,
+  (forall c, In c (oracle_excs e) -> subclass c EException = true) ->
   integer_validation true e = SOk \/ integer_validation true e = SFail FValidation.
 Proof.
-  intros e. unfold integer_validation.
-  destruct (integer_never_escapes e) as [[z H] | H]; rewrite H; [left | right]; reflexivity.
+  intros e Ho. unfold integer_validation.
+  destruct (integer_never_escapes e Ho) as [[z H] | H]; rewrite H; [left | right]; reflexivity.
 Qed.
+
+(** What is not an Exception ([exit()] raises SystemExit) leaves python_evaluate and everything
+    above it (finding KF-C18-3). *)
+Lemma system_exit_escapes :
+  python_evaluate true (IOracle (RExc ESystemExit)) = CEscapes ESystemExit /\
+  integer_validation true (IOracle (RExc ESystemExit)) = SUncaught ESystemExit.
+Proof. vm_compute. split; reflexivity. Qed.
 
 (** The chain before commit 58541f0 lets ZeroDivisionError out: INTERNAL_ERROR. *)
 Definition one_floordiv_zero : iexpr := IBin OFloorDiv (ILit 1) (ILit 0).
